@@ -16,6 +16,9 @@ enum TS {
     Running,
     AtEnd,
     Sending,
+    /// released to send its result and not back within two seconds of real time: blocked in
+    /// `send` (cannot happen with the unbounded channel txtpp uses; a changed tree might)
+    BlockedSend,
     Exited,
 }
 
@@ -296,7 +299,7 @@ fn quiescent(st: &St) -> bool {
     for t in st.tasks.values() {
         match t.state {
             TS::Running | TS::Sending => return false,
-            TS::AtBegin | TS::AtEnd | TS::AtIo => busy += 1,
+            TS::AtBegin | TS::AtEnd | TS::AtIo | TS::BlockedSend => busy += 1,
             TS::Queued => queued += 1,
             TS::Exited => {}
         }
@@ -621,6 +624,27 @@ pub fn simulate(base: &Path, cfg: txtpp::Config, sched: &Sched, opts: &SimOpts) 
         while !quiescent(&st) {
             let (g, to) = sim.cv.wait_timeout(st, Duration::from_millis(250)).unwrap();
             st = g;
+            if to.timed_out() && t0.elapsed() > Duration::from_secs(2) {
+                // nobody is running except tasks that were released to send: they are blocked in send
+                let others_running = st.coord == CS::Running
+                    || st.release.is_some()
+                    || st.tasks.values().any(|t| t.state == TS::Running);
+                let senders: Vec<String> = st
+                    .tasks
+                    .iter()
+                    .filter(|(_, t)| t.state == TS::Sending)
+                    .map(|(n, _)| n.clone())
+                    .collect();
+                if !others_running && !senders.is_empty() {
+                    for n in senders {
+                        if let Some(t) = st.tasks.get_mut(&n) {
+                            t.state = TS::BlockedSend;
+                        }
+                        st.log.push(format!("blocked-in-send {n}"));
+                    }
+                    continue;
+                }
+            }
             if to.timed_out() && t0.elapsed() > opts.watchdog {
                 hang = Some(format!(
                     "watchdog: no quiescence after {:?}; coord {:?}; tasks {:?}",
@@ -655,7 +679,8 @@ pub fn simulate(base: &Path, cfg: txtpp::Config, sched: &Sched, opts: &SimOpts) 
             }
         }
         let pending = st.sent - st.received;
-        let work_left = !enabled.is_empty();
+        let blocked_senders = st.tasks.values().any(|t| t.state == TS::BlockedSend);
+        let work_left = !enabled.is_empty() || blocked_senders;
         let mut coord_kind = "";
         if st.coord == CS::AtPoll {
             if pending > 0 {
@@ -674,6 +699,15 @@ pub fn simulate(base: &Path, cfg: txtpp::Config, sched: &Sched, opts: &SimOpts) 
                     spawn_idx: usize::MAX,
                     file: String::new(),
                 });
+            }
+        }
+        if enabled.is_empty() && blocked_senders {
+            // give a sender that was merely slow a chance before calling it a deadlock
+            let n0 = st.log.len();
+            let (g, _) = sim.cv.wait_timeout(st, Duration::from_secs(10)).unwrap();
+            st = g;
+            if st.log.len() != n0 {
+                continue;
             }
         }
         if enabled.is_empty() {
